@@ -321,6 +321,7 @@ type lDestPlugin struct {
 	teardowns int
 	opens     int
 	block     bool // never answers (unresponsive destination)
+	slow      bool // answers after a pause
 	sendFail  bool // the next write fails (transient stream error)
 	nackAll   bool
 	ackAll    bool
@@ -418,6 +419,14 @@ func (s *lDestStream) Recv() (pconnector.DestinationRunResponse, error) {
 	case rec = <-q:
 	case <-ctx.Done():
 		return pconnector.DestinationRunResponse{}, ctx.Err()
+	}
+	if p.slow {
+		// answers only after a pause: the record is in flight meanwhile
+		if verifSymbolic() {
+			time.Sleep(time.Millisecond)
+		} else {
+			time.Sleep(30 * time.Millisecond)
+		}
 	}
 	w.mu.Lock()
 	defer w.mu.Unlock()
